@@ -5,6 +5,17 @@ import (
 	pAst "github.com/smarthome-go/homescript/v3/homescript/parser/ast"
 )
 
+// Operands are printed without parentheses: an operand that moves to another position (or gets a
+// prefix operator) must be grouped if it is itself an infix or cast expression.
+func groupIfCompound(expr ast.AnalyzedExpression) ast.AnalyzedExpression {
+	switch expr.Kind() {
+	case ast.InfixExpressionKind, ast.CastExpressionKind:
+		return ast.AnalyzedGroupedExpression{Inner: expr, Range: expr.Span()}
+	default:
+		return expr
+	}
+}
+
 func (self *Transformer) infixExpr(node ast.AnalyzedInfixExpression, needsToBeStatic bool) []ast.AnalyzedExpression {
 	variants := make([]ast.AnalyzedExpression, 0)
 	variants = append(variants, node)
@@ -25,7 +36,7 @@ func (self *Transformer) infixExpr(node ast.AnalyzedInfixExpression, needsToBeSt
 			if node.Operator == pAst.PlusInfixOperator {
 				variants = append(variants, ast.AnalyzedInfixExpression{
 					Lhs:        node.Rhs,
-					Rhs:        node.Lhs,
+					Rhs:        groupIfCompound(node.Lhs),
 					Operator:   node.Operator,
 					ResultType: node.ResultType,
 					Range:      node.Range,
@@ -36,7 +47,7 @@ func (self *Transformer) infixExpr(node ast.AnalyzedInfixExpression, needsToBeSt
 				Lhs: node.Lhs,
 				Rhs: ast.AnalyzedPrefixExpression{
 					Operator:   ast.MinusPrefixOperator,
-					Base:       node.Rhs,
+					Base:       groupIfCompound(node.Rhs),
 					ResultType: ast.NewIntType(node.Range),
 					Range:      node.Range,
 				},
@@ -52,7 +63,7 @@ func (self *Transformer) infixExpr(node ast.AnalyzedInfixExpression, needsToBeSt
 		if node.Lhs.Type().Kind() == ast.IntTypeKind || node.Lhs.Type().Kind() == ast.FloatTypeKind {
 			variants = append(variants, ast.AnalyzedInfixExpression{
 				Lhs:        node.Rhs,
-				Rhs:        node.Lhs,
+				Rhs:        groupIfCompound(node.Lhs),
 				Operator:   node.Operator,
 				ResultType: node.ResultType,
 				Range:      node.Range,
